@@ -14,6 +14,7 @@ import (
 	"encoding/json"
 	"fmt"
 	"io"
+	"net"
 	"net/http"
 	"net/http/httptest"
 	"os"
@@ -38,6 +39,132 @@ type c15Req struct {
 	Body    json.RawMessage `json:"body,omitempty"`
 	PauseUs int             `json:"pause_us,omitempty"`
 	Raw     string          `json:"raw,omitempty"` // raw request body (blob upload)
+	CancelUs int            `json:"cancel_us,omitempty"` // the client gives up (closes the connection) after this long
+}
+
+// fake registry + CDN for pull/push histories: models reg.test/library/p<i> = one shared layer + one own layer
+type c15RegSpec struct {
+	Models   int `json:"models"`
+	LayerKB  int `json:"layer_kb"`
+	HeadUs   int `json:"head_us"`  // latency of HEAD/manifest requests (widens the Prepare window)
+	ChunkUs  int `json:"chunk_us"` // latency before a blob body is served
+}
+
+type c15Registry struct {
+	spec     c15RegSpec
+	blobs    map[string][]byte // digest -> content
+	manifest map[string][]byte // repo -> manifest json
+	cdnURL   string
+	mu       sync.Mutex
+	uploads  map[string]*bytes.Buffer
+	pushed   map[string]int
+}
+
+func c15Digest(b []byte) string { return fmt.Sprintf("sha256:%x", sha256.Sum256(b)) }
+
+func newC15Registry(spec c15RegSpec) *c15Registry {
+	r := &c15Registry{spec: spec, blobs: map[string][]byte{}, manifest: map[string][]byte{}, uploads: map[string]*bytes.Buffer{}, pushed: map[string]int{}}
+	shared := bytes.Repeat([]byte("shared-layer-0123456789abcdef"), spec.LayerKB*1024/29+1)
+	r.blobs[c15Digest(shared)] = shared
+	for i := 0; i < spec.Models; i++ {
+		own := bytes.Repeat([]byte(fmt.Sprintf("own-%d-", i)), 4000)
+		cfg := []byte(fmt.Sprintf(`{"model_format":"gguf","model_family":"test","n":%d}`, i))
+		r.blobs[c15Digest(own)], r.blobs[c15Digest(cfg)] = own, cfg
+		m := map[string]any{"schemaVersion": 2, "mediaType": "application/vnd.docker.distribution.manifest.v2+json",
+			"config": map[string]any{"mediaType": "application/vnd.docker.container.image.v1+json", "digest": c15Digest(cfg), "size": len(cfg)},
+			"layers": []map[string]any{
+				{"mediaType": "application/vnd.ollama.image.license", "digest": c15Digest(shared), "size": len(shared)},
+				{"mediaType": "application/vnd.ollama.image.license", "digest": c15Digest(own), "size": len(own)}}}
+		r.manifest[fmt.Sprintf("library/p%d", i)], _ = json.Marshal(m)
+	}
+	return r
+}
+
+func (r *c15Registry) sleep(us int) {
+	if us > 0 {
+		time.Sleep(time.Duration(us) * time.Microsecond)
+	}
+}
+
+// registry API (reached through testMakeRequestDialContext, whatever the host name)
+func (r *c15Registry) serveRegistry(w http.ResponseWriter, q *http.Request) {
+	p := strings.TrimPrefix(q.URL.Path, "/v2/")
+	switch {
+	case strings.Contains(p, "/manifests/"):
+		repo := p[:strings.Index(p, "/manifests/")]
+		if q.Method == http.MethodPut {
+			io.Copy(io.Discard, q.Body)
+			r.mu.Lock()
+			r.pushed[repo]++
+			r.mu.Unlock()
+			w.WriteHeader(http.StatusCreated)
+			return
+		}
+		r.sleep(r.spec.HeadUs)
+		m, ok := r.manifest[repo]
+		if !ok {
+			http.NotFound(w, q)
+			return
+		}
+		w.Header().Set("Content-Type", "application/vnd.docker.distribution.manifest.v2+json")
+		w.Write(m)
+	case strings.Contains(p, "/blobs/uploads/"):
+		// start of an upload session
+		r.mu.Lock()
+		id := fmt.Sprintf("u%d", len(r.uploads))
+		r.uploads[id] = &bytes.Buffer{}
+		r.mu.Unlock()
+		r.sleep(r.spec.HeadUs)
+		w.Header().Set("Docker-Upload-Location", "http://reg.test/upload/"+id)
+		w.WriteHeader(http.StatusAccepted)
+	case strings.HasPrefix(q.URL.Path, "/upload/"):
+		id := strings.TrimPrefix(q.URL.Path, "/upload/")
+		body, _ := io.ReadAll(q.Body)
+		r.mu.Lock()
+		if b := r.uploads[id]; b != nil {
+			b.Write(body)
+		}
+		r.mu.Unlock()
+		r.sleep(r.spec.ChunkUs)
+		if q.Method == http.MethodPut {
+			w.WriteHeader(http.StatusCreated)
+			return
+		}
+		w.Header().Set("Docker-Upload-Location", "http://reg.test/upload/"+id)
+		w.WriteHeader(http.StatusAccepted)
+	case strings.Contains(p, "/blobs/"):
+		d := p[strings.Index(p, "/blobs/")+len("/blobs/"):]
+		b, ok := r.blobs[d]
+		if q.Method == http.MethodHead {
+			r.sleep(r.spec.HeadUs)
+			if !ok {
+				http.NotFound(w, q)
+				return
+			}
+			w.Header().Set("Content-Length", fmt.Sprint(len(b)))
+			return
+		}
+		if !ok {
+			http.NotFound(w, q)
+			return
+		}
+		// like the real registry: redirect to a CDN on another host
+		w.Header().Set("Location", r.cdnURL+"/blob/"+d)
+		w.WriteHeader(http.StatusTemporaryRedirect)
+	default:
+		http.NotFound(w, q)
+	}
+}
+
+func (r *c15Registry) serveCDN(w http.ResponseWriter, q *http.Request) {
+	d := strings.TrimPrefix(q.URL.Path, "/blob/")
+	b, ok := r.blobs[d]
+	if !ok {
+		http.NotFound(w, q)
+		return
+	}
+	r.sleep(r.spec.ChunkUs)
+	http.ServeContent(w, q, "", time.Time{}, bytes.NewReader(b))
 }
 
 type c15Case struct {
@@ -49,6 +176,7 @@ type c15Case struct {
 	CompUs    int        `json:"comp_us"`
 	Workers   [][]c15Req `json:"workers"`
 	Rounds    int        `json:"rounds"`
+	Registry   *c15RegSpec `json:"registry,omitempty"`
 	TimeoutMs  int       `json:"timeout_ms"`  // per request (default 3000)
 	DeadlineMs int       `json:"deadline_ms"` // per case: workers stop issuing requests after it (default 15000)
 }
@@ -179,7 +307,13 @@ func c15Do(client *http.Client, base string, r c15Req) (int, []byte, error) {
 	} else if r.Raw != "" {
 		body = strings.NewReader(r.Raw)
 	}
-	req, err := http.NewRequest(r.Method, base+r.Path, body)
+	ctx := context.Background()
+	if r.CancelUs > 0 {
+		var cancel context.CancelFunc
+		ctx, cancel = context.WithTimeout(ctx, time.Duration(r.CancelUs)*time.Microsecond)
+		defer cancel()
+	}
+	req, err := http.NewRequestWithContext(ctx, r.Method, base+r.Path, body)
 	if err != nil {
 		return 0, nil, err
 	}
@@ -238,6 +372,15 @@ func c15Run(t *testing.T, c c15Case) c15Obs {
 	}
 	sched.getGpuFn, sched.getCpuFn = gpuFn, gpuFn
 	sched.reschedDelay = 2 * time.Millisecond
+	if c.Registry != nil {
+		reg := newC15Registry(*c.Registry)
+		regSrv := httptest.NewServer(http.HandlerFunc(reg.serveRegistry))
+		cdnSrv := httptest.NewServer(http.HandlerFunc(reg.serveCDN))
+		defer regSrv.Close()
+		defer cdnSrv.Close()
+		reg.cdnURL = cdnSrv.URL
+		c15RegAddr.Store(regSrv.Listener.Addr().String())
+	}
 	s := &Server{sched: sched}
 	router, err := s.GenerateRoutes(nil)
 	if err != nil {
@@ -345,10 +488,18 @@ func c15Run(t *testing.T, c c15Case) c15Obs {
 	return obs
 }
 
+var c15RegAddr atomic.Value // address of the current case's fake registry
+
 func TestVerifC15(t *testing.T) {
 	in, out := os.Getenv("C15_CASES"), os.Getenv("C15_OUT")
 	if in == "" || out == "" {
 		t.Skip("C15_CASES / C15_OUT not set")
+	}
+	// set once, before any server goroutine exists (the hook is a plain package variable)
+	c15RegAddr.Store("127.0.0.1:1")
+	testMakeRequestDialContext = func(ctx context.Context, network, _ string) (net.Conn, error) {
+		var d net.Dialer
+		return d.DialContext(ctx, network, c15RegAddr.Load().(string))
 	}
 	f, err := os.Open(in)
 	if err != nil {
